@@ -17,7 +17,7 @@ use std::collections::BTreeMap;
 
 pub const META: Meta = Meta {
     level: "exploration",
-    rule: "all programs of <= 3 (quick) / <= 4 (thorough) calls over 57 setter calls: mesh_n / mesh_n_low / mesh_n_high / mesh_outbound_min (default and _for_topic(T)) x {0,1,2,3,6}, set_topic_config(T, 3 presets), history_length / history_gossip x {0,1,2,3}, max_transmit_size / max_transmit_size_for_topic(T) x {0,99,100}; every program built with the real ConfigBuilder. Then, for every distinct accepted mesh parameter set (as default set and as per-topic set) and history pair: standalone Behaviour subscribed to T (per-topic parameters) and U (default parameters), 0-4 peers x {inbound, outbound, alternating} x {local subscription first, peers first}, 3 heartbeats. Non-trivial = distinct accepted configurations (by getter values) and distinct heartbeat scenarios.",
+    rule: "all programs of <= 3 (quick) / <= 4 (thorough) calls over 57 setter calls: mesh_n / mesh_n_low / mesh_n_high / mesh_outbound_min (default and _for_topic(T)) x {0,1,2,3,6}, set_topic_config(T, 3 presets), history_length / history_gossip x {0,1,2,3}, max_transmit_size / max_transmit_size_for_topic(T) x {0,99,100}; every program built with the real ConfigBuilder. Then, for every distinct accepted mesh parameter set (as default set and as per-topic set) and history pair: standalone Behaviour subscribed to T (per-topic parameters) and U (default parameters), 0-4 peers x {inbound, outbound, alternating} x {local subscription first, peers first}, 3 heartbeats. Finally 6 fully valid configurations whose per-topic parameters (topic with per-topic transmit size) are larger / smaller than / equal to the defaults x 0-18 (thorough 22) outbound peers x {no, 2, all} GRAFTs x {local subscription first, peers first}: 3 heartbeats, no panic and after every heartbeat the mesh of each topic has exactly the size its own parameters prescribe (refill to mesh_n below mesh_n_low, cut to mesh_n at mesh_n_high, else unchanged). Non-trivial = distinct accepted configurations (by getter values) and distinct heartbeat scenarios.",
     explanation: "Complete enumeration (E3) of builder programs against the stated inequalities, followed by execution of the real heartbeat for every distinct accepted configuration; panics are caught and reported with the configuration.",
     assumptions: &["one configured topic T besides the defaults", "values {0,1,2,3,6} for mesh parameters, <= 4 peers", "heartbeat invoked through a cfg(libp2p_verif) hook; the behaviour's own timer is disarmed by a 10-year initial delay"],
 };
@@ -271,6 +271,195 @@ fn program_from_json(v: &Value) -> Option<Vec<(&'static str, usize)>> {
 }
 
 
+// ---------------------------------------------------------------------------------------------
+// phase 3: fully valid configurations whose per-topic parameters differ from the defaults
+
+/// (default [out, low, n, high], topic T [out, low, n, high]); all valid, T has a per-topic
+/// transmit size so that `build` validates it on every tree
+const VALID_CFGS: [([usize; 4], [usize; 4]); 6] = [
+    ([2, 5, 6, 12], [2, 10, 12, 16]), // topic larger than default (mesh_n_low > default mesh_n + 1)
+    ([2, 5, 6, 12], [1, 2, 3, 4]),    // topic smaller than default
+    ([1, 3, 4, 5], [2, 7, 8, 9]),     // small default, larger topic
+    ([2, 10, 12, 16], [1, 2, 4, 6]),  // large default, small topic
+    ([2, 5, 6, 12], [2, 5, 6, 12]),   // equal
+    ([0, 1, 1, 2], [3, 6, 9, 9]),     // n == n_high
+];
+
+fn valid_cfg(i: usize) -> Result<Config, String> {
+    let (d, t) = VALID_CFGS.get(i).ok_or("bad cfg index")?;
+    let mut b = ConfigBuilder::default();
+    b.heartbeat_initial_delay(node::NEVER);
+    b.mesh_outbound_min(d[0]).mesh_n_low(d[1]).mesh_n(d[2]).mesh_n_high(d[3]);
+    b.set_topic_config(topic_t(), TopicMeshConfig { mesh_outbound_min: t[0], mesh_n_low: t[1], mesh_n: t[2], mesh_n_high: t[3] });
+    b.max_transmit_size_for_topic(4096, topic_t());
+    b.build().map_err(|e| format!("harness :: valid configuration rejected: {e:?}"))
+}
+
+#[derive(Clone, Debug)]
+struct VScenario {
+    cfg: usize,
+    peers: u8,
+    /// how many subscribed peers outside the mesh additionally send GRAFT (as long as accepted)
+    grafts: u8,
+    local_first: bool,
+}
+
+/// what the heartbeat's mesh maintenance documents for one topic: refill to mesh_n when below
+/// mesh_n_low (limited by the candidates), cut back to mesh_n when at/above mesh_n_high,
+/// otherwise leave alone. All peers are outbound, unscored and never backed off except the ones
+/// this node pruned itself (`pruned`), so the expected size is exact.
+fn expected_after(p: &[usize; 4], before: usize, candidates: usize) -> (usize, &'static str) {
+    let [_, low, n, high] = *p;
+    let mut len = before;
+    let mut what = "steady";
+    if len < low {
+        len = n.min(before + candidates).max(before);
+        what = "refill";
+    }
+    if len >= high {
+        len = n.min(len);
+        what = if what == "refill" { "refill" } else { "prune" };
+    }
+    (len, what)
+}
+
+#[derive(Default)]
+struct VInfo {
+    between_default_n_and_topic_low: u64,
+    refills: u64,
+    prunes: u64,
+    steady: u64,
+}
+
+fn valid_inner(sc: &VScenario, info: &mut VInfo) -> Result<(), String> {
+    let (d, t) = VALID_CFGS[sc.cfg];
+    let cfg = valid_cfg(sc.cfg)?;
+    let mut b: Behaviour = Behaviour::new(MessageAuthenticity::Signed(keypair(0)), cfg).map_err(|e| format!("harness :: Behaviour::new: {e}"))?;
+    let tt = IdentTopic::new("T");
+    let tu = IdentTopic::new("U");
+    let mut handlers = Vec::new();
+    if sc.local_first {
+        b.subscribe(&tt).map_err(|e| format!("harness :: {e:?}"))?;
+        b.subscribe(&tu).map_err(|e| format!("harness :: {e:?}"))?;
+    }
+    for i in 1..=sc.peers {
+        handlers.push(node::connect(&mut b, i, true));
+        node::deliver(&mut b, i, &node::subs_rpc(&[(true, "T"), (true, "U")])).map_err(|e| format!("harness :: {e}"))?;
+    }
+    if !sc.local_first {
+        b.subscribe(&tt).map_err(|e| format!("harness :: {e:?}"))?;
+        b.subscribe(&tu).map_err(|e| format!("harness :: {e:?}"))?;
+    }
+    // GRAFTs from peers outside the meshes, only while they will be accepted (below mesh_n_high)
+    let mut sent = 0;
+    for i in 1..=sc.peers {
+        if sent >= sc.grafts {
+            break;
+        }
+        let mut topics: Vec<&str> = Vec::new();
+        for (name, th, p) in [("T", tt.hash(), &t), ("U", tu.hash(), &d)] {
+            let in_mesh = b.mesh_peers(&th).any(|x| *x == kit::ids::peer(i));
+            if !in_mesh && b.mesh_peers(&th).count() < p[3] {
+                topics.push(name);
+            }
+        }
+        if topics.is_empty() {
+            continue;
+        }
+        let mut ctrl = kit::pb::W::new();
+        for name in &topics {
+            ctrl = ctrl.msg(3, &kit::pb::W::new().bytes(1, name.as_bytes()));
+        }
+        node::deliver(&mut b, i, &kit::pb::W::new().msg(3, &ctrl).finish()).map_err(|e| format!("harness :: {e}"))?;
+        sent += 1;
+    }
+    let mut pruned: [std::collections::BTreeSet<libp2p_identity::PeerId>; 2] = Default::default();
+    for hb in 1..=3 {
+        let before: Vec<std::collections::BTreeSet<libp2p_identity::PeerId>> = [tt.hash(), tu.hash()].iter().map(|th| b.mesh_peers(th).copied().collect()).collect();
+        if before[0].len() > d[2] && before[0].len() < t[1] {
+            info.between_default_n_and_topic_low += 1;
+        }
+        if let Err(p) = mc::catch(|| b.verif_gs_unit_heartbeat()) {
+            let what = if p.contains("subtract with overflow") { "subtract-overflow" } else { "other" };
+            return Err(format!("valid-config-heartbeat-panic:{what} :: heartbeat {hb} panicked ({p}) at {} with a fully valid config: default {d:?}, topic T {t:?} [outbound_min, n_low, n, n_high]; mesh sizes before: T {} U {}", mc::shim::last_panic_loc().unwrap_or_default(), before[0].len(), before[1].len()));
+        }
+        for (k, (name, th, p)) in [("T", tt.hash(), &t), ("U", tu.hash(), &d)].into_iter().enumerate() {
+            let after: std::collections::BTreeSet<libp2p_identity::PeerId> = b.mesh_peers(&th).copied().collect();
+            let candidates = (1..=sc.peers).map(kit::ids::peer).filter(|x| !before[k].contains(x) && !pruned[k].contains(x)).count();
+            let (want, what) = expected_after(p, before[k].len(), candidates);
+            match what {
+                "refill" => info.refills += 1,
+                "prune" => info.prunes += 1,
+                _ => info.steady += 1,
+            }
+            if after.len() != want {
+                let which = if name == "T" { "per-topic-parameters" } else { "default-parameters" };
+                return Err(format!("valid-config-mesh-size:{which}:{what} :: heartbeat {hb}: mesh of topic {name} went from {} to {} peers, expected {want} ({what}; parameters [outbound_min, n_low, n, n_high] = {p:?}, {candidates} candidates); default {d:?}, topic T {t:?}", before[k].len(), after.len()));
+            }
+            for x in before[k].difference(&after) {
+                pruned[k].insert(*x);
+            }
+        }
+    }
+    drop(handlers);
+    Ok(())
+}
+
+fn valid_run(sc: VScenario, seed: u64) -> (Result<(), String>, [u64; 4]) {
+    match mc::isolated(seed, move || {
+        let mut info = VInfo::default();
+        let r = valid_inner(&sc, &mut info);
+        (r, [info.between_default_n_and_topic_low, info.refills, info.prunes, info.steady])
+    }) {
+        Ok(x) => x,
+        Err(p) => (Err(format!("valid-config-heartbeat-panic:outside-heartbeat :: {p}")), [0; 4]),
+    }
+}
+
+fn vcase(sc: &VScenario) -> Value {
+    json!({"kind": "valid-topic-config", "cfg": sc.cfg, "peers": sc.peers, "grafts": sc.grafts, "local_first": sc.local_first})
+}
+
+fn phase3(ctx: &Ctx) -> Outcome {
+    let mut out = Outcome::default();
+    let max_peers: u8 = ctx.tier.pick(18, 22);
+    let mut tot = [0u64; 4];
+    for cfg in 0..VALID_CFGS.len() {
+        for peers in 0..=max_peers {
+            for grafts in [0u8, 2, 255] {
+                for local_first in [true, false] {
+                    if peers == 0 && (grafts > 0 || !local_first) {
+                        continue;
+                    }
+                    let sc = VScenario { cfg, peers, grafts, local_first };
+                    out.evaluations += 1;
+                    out.nontrivial(&format!("{sc:?}"));
+                    let (r, info) = valid_run(sc.clone(), ctx.seed);
+                    for i in 0..4 {
+                        tot[i] += info[i];
+                    }
+                    if let Err(m) = r {
+                        if m.starts_with("harness") {
+                            out.machinery(m);
+                        } else {
+                            out.violation(mc::bfs::signature_of(&m), m, vcase(&sc));
+                        }
+                    }
+                }
+            }
+        }
+    }
+    out.count("valid_config_scenarios", out.evaluations);
+    for (k, n) in [("valid_config_heartbeats_with_mesh_between_default_n_and_topic_n_low", tot[0]), ("valid_config_refills", tot[1]), ("valid_config_prunes", tot[2]), ("valid_config_steady", tot[3])] {
+        out.count(k, n);
+        if n == 0 {
+            out.machinery(format!("vacuity: '{k}' is zero"));
+        }
+    }
+    out.sample(json!({"kind": "valid-topic-config", "cfg": 0, "peers": 8, "grafts": 0, "local_first": true, "expect": "T mesh 8 -> 12 limited by candidates (8), U mesh 5 -> 6"}));
+    out
+}
+
 fn phase2(ctx: &Ctx, hb: &[(Key, Vec<(&'static str, usize)>)]) -> Outcome {
     let scs = scenarios();
     let seed = ctx.seed;
@@ -324,9 +513,16 @@ pub fn run(ctx: &Ctx) -> Outcome {
     if let Some(case) = &ctx.replay {
         let mut out = Outcome::default();
         out.evaluations = 1;
-        let Some(program) = program_from_json(&case["program"]) else {
-            out.machinery("bad replay case");
-            return out;
+        let program = if case["kind"].as_str() == Some("valid-topic-config") {
+            Vec::new()
+        } else {
+            match program_from_json(&case["program"]) {
+                Some(p) => p,
+                None => {
+                    out.machinery("bad replay case");
+                    return out;
+                }
+            }
         };
         match case["kind"].as_str() {
             Some("build") => {
@@ -348,6 +544,12 @@ pub fn run(ctx: &Ctx) -> Outcome {
                             out.violation(heartbeat_signature(&k, p), format!("heartbeat panicked: {p}"), case.clone());
                         }
                     }
+                }
+            }
+            Some("valid-topic-config") => {
+                let sc = VScenario { cfg: case["cfg"].as_u64().unwrap_or(0) as usize, peers: case["peers"].as_u64().unwrap_or(0) as u8, grafts: case["grafts"].as_u64().unwrap_or(0) as u8, local_first: case["local_first"].as_bool().unwrap_or(true) };
+                if let (Err(m), _) = valid_run(sc, ctx.seed) {
+                    out.violation(mc::bfs::signature_of(&m), m, case.clone());
                 }
             }
             _ => out.machinery("bad replay case"),
@@ -443,6 +645,7 @@ pub fn run(ctx: &Ctx) -> Outcome {
     let mut out = p1;
     out.count("heartbeat_config_combinations", hb.len() as u64);
     out.merge(p2);
+    out.merge(phase3(ctx));
     if out.get("heartbeat_runs_with_mesh_peers") == 0 {
         out.machinery("vacuity: no heartbeat run ever had a peer in a mesh");
     }
